@@ -84,8 +84,71 @@ def tie_profile(ctx):
             s.count("labels:" + ("allpos" if all(ys) else "allneg" if not any(ys) else "mixed"))
 
 
+def _fine_scores(rng, shape_like, bases):
+    """Replace every score by base + 0..6 on the 2^-40 grid (bases >= 2^32: float32 collapses each cluster)."""
+    if isinstance(shape_like, list):
+        return [_fine_scores(rng, v, bases) for v in shape_like]
+    return rng.choice(bases) + rng.randint(0, 6)
+
+
+def _collapse32(x, den):
+    """What the scores become if the implementation casts them to float32 (exact, back on the grid)."""
+    import torch
+    if isinstance(x, list):
+        return [_collapse32(v, den) for v in x]
+    f = Fraction(float(torch.tensor(x / den, dtype=torch.float64).float())) * den
+    return int(f)
+
+
+def fine_grid(ctx):
+    """Class forms on float64 scores that differ only below float32 resolution: histories
+    (update x k, compute, merge, compute) on the 2^-40 grid.  A history is *discriminating* when the
+    model's result changes if the scores are first rounded to float32 -- i.e. a cast of the cached
+    inputs to float32 in the class would be observed; at least one such history per class is required."""
+    from .. import history
+    s = ctx.stream("fine-grid class histories (float64 scores, clusters below float32 resolution)")
+    per = ctx.n(3, 25)
+    for e in ENTS:
+        cfg = [c for c in e.configs(ctx.rng, ctx.quick) if c["den"] == C.FINE_DEN][0]
+        if "min_precision" in cfg:          # the bound must bite for the recall to depend on the order inside a cluster
+            cfg = dict(cfg, min_precision=ctx.rng.choice([Fraction(1, 2), Fraction(3, 4)]))
+        den = cfg["den"]
+        found_bad, discr, tries = None, 0, 0
+        while tries < per or (discr == 0 and tries < per + 12):
+            tries += 1
+            bases = [ctx.rng.randrange(2 ** 8, 2 ** 16) * 2 ** 24 for _ in range(ctx.rng.randint(1, 2))]
+            def batch(n):
+                b = e.gen_batch(ctx.rng, cfg, n)
+                b["x"] = _fine_scores(ctx.rng, b["x"], bases)
+                return b
+            ops = [("upd", 0, batch(ctx.rng.choice([4, 6, 9]))), ("upd", 1, batch(ctx.rng.choice([3, 5, 8]))),
+                   ("upd", 0, batch(ctx.rng.choice([1, 2, 7]))), ("compute", 0), ("merge", 0, [1], "list"), ("compute", 0),
+                   ("prep", 0), ("compute", 0)]
+            cops = [(o[0], o[1], dict(o[2], x=_collapse32(o[2]["x"], den))) if o[0] == "upd" else o for o in ops]
+            mobs, cobs = run_model([history.model_case(e, cfg, 2, ops), history.model_case(e, cfg, 2, cops)])
+            try:
+                iobs = history.run_impl(e, cfg, 2, ops)
+                d = history.compare_obs(e, ops, mobs, iobs)
+            except Exception as ex:
+                d = {"at": -1, "why": f"implementation raised: {type(ex).__name__}: {ex}"}
+            is_d = isinstance(mobs, list) and isinstance(cobs, list) and close(mobs[5], cobs[5], e.tol) is not None
+            discr += 1 if is_d else 0
+            s.case((e.name, repr(ops)), is_d, sample={"class": e.name, "bases": bases, "discriminating": is_d})
+            s.count("class:" + e.name)
+            s.count("discriminating" if is_d else "not-discriminating")
+            if d and found_bad is None:
+                found_bad = {"class": e.name, "cfg": cfg, "nobj": 2, "ops": ops, "disagreement": d}
+                s.mismatches.append(found_bad)
+        ctx.oblige(f"tie:fine-grid:{e.name}", found_bad is None, detail=repr(core.canon(found_bad))[:1500] if found_bad else "")
+        ctx.oblige(f"coverage:fine-grid-discriminates-float32-cast:{e.name}", discr > 0,
+                   detail=f"{discr} of {tries} histories change under a float32 cast of the scores")
+        if found_bad:
+            ctx.violation("failing-input", e.name, {**found_bad, "broken": f"tie:fine-grid:{e.name}"})
+
+
 def run(ctx):
     streams.hist_corr(ctx, ents=ENTS, nhist=ctx.n(8, 100))
     streams.fn_corr(ctx, ents=ENTS, ncases=ctx.n(45, 600), sizes=(1, 2, 3, 5, 8, 13, 40, 60) if ctx.quick else (1, 2, 3, 5, 8, 13, 40, 60, 200))
+    fine_grid(ctx)
     exhaustive(ctx)
     tie_profile(ctx)
